@@ -84,28 +84,6 @@ Proof.
   pose proof (adv_len _ _ (skip_adv i1)). unfold len in *. lia.
 Qed.
 
-Lemma lex1_len : forall rb re n s p t r q, (String.length s <= n)%nat ->
-    lex1 rb re s p = Some (t, (r, q)) -> (String.length r + String.length t <= String.length s)%nat.
-Proof.
-  induction n; intros s p t r q Hn H.
-  - destruct s; [|cbn in Hn; lia]. cbn in H. inversion H; subst. cbn. lia.
-  - destruct s as [|c s1]; [cbn in H; inversion H; subst; cbn; lia|].
-    cbn [lex1] in H. cbn [String.length] in Hn.
-    destruct (is_regular c).
-    { destruct (lex1 rb re s1 (adv_char c p)) as [[t1 [r1 q1]]|] eqn:E; cbn [lcons] in H; [|discriminate].
-      inversion H; subst. apply IHn in E; [|lia]. cbn [append String.length]. lia. }
-    destruct (Ascii.eqb c BACKSLASH).
-    { destruct s1 as [|d s2]; [discriminate|]. destruct (is_escapable d); [|discriminate].
-      destruct (lex1 rb re s2 _) as [[t1 [r1 q1]]|] eqn:E; cbn [lcons] in H; [|discriminate].
-      inversion H; subst. apply IHn in E; [|cbn [String.length] in Hn; lia]. cbn [append String.length]. lia. }
-    destruct (Ascii.eqb c DOT).
-    { destruct (starts_with "..." (String c s1)).
-      - inversion H; subst. cbn. lia.
-      - destruct (lex1 rb re s1 (adv_char c p)) as [[t1 [r1 q1]]|] eqn:E; cbn [lcons] in H; [|discriminate].
-        inversion H; subst. apply IHn in E; [|lia]. cbn [append String.length]. lia. }
-    inversion H; subst. cbn. lia.
-Qed.
-
 Lemma terminal_fine : forall c i, fine true i (terminal c i).
 Proof.
   intros [rb re] [s p]. unfold terminal. cbn [reset_after_backslash reset_after_escaped]. rewrite terminal_spec.
